@@ -111,6 +111,18 @@ CHECKS["C10"] = dict(
          "satisfiable); that the involutions preserve the joint uniform law is the one informal step. The scripted tie depends on the order "
          "of the draws inside an operation (a reordering would be reported as no-failing-input-found).")
 
+CHECKS["C12"] = dict(
+    technique="Coq proof (Model/Constraints.v, Proofs/ConstraintsProofs.v, Props/C12.v: list induction + ring/field over the reals; "
+              "invariant lifted to every propose/accept/reject history by induction over fold_left) + correspondence of every logged "
+              "Atoms.set_positions of real runs and of FixRot.adjust_momenta with the same definitions evaluated by the Coq-Interval tactic",
+    text="Theorems: FixAtoms keeps fixed rows for ANY proposed positions, FixCom keeps the centre of mass for any proposal (masses with "
+         "non-zero sum) and zeroes the total momentum; both invariants hold after every history of proposals, acceptances and "
+         "rejections (no bound on length); FixRot: for omega solving I omega = L the adjusted momenta have zero angular momentum, and "
+         "the total linear momentum is unchanged for any omega (positions relative to the centre of mass).",
+    ref="§4 C12",
+    note=COMMON_NOTE + " ASE's constraint classes are modelled, not verified: each logged set_positions call is compared with the model. "
+         "The code's inverse inertia tensor via ASE's eigen-decomposition is tied by certifying the residual of I omega = L in Coq.")
+
 NA_REASON = "check not built yet in this round (see DESIGN.md §8 order of construction); no weaker technique substituted"
 
 
